@@ -489,6 +489,26 @@ def special_stage(res: Result, ctx: Ctx, srcdir: Path) -> None:
             for kind, sig, msg in check_subset(text, dmod, dmetas, subset)[:2]:
                 res.violate(Violation(ID, kind, "descriptor-subclass:" + sig, case, "descriptor subclasses: " + msg))
     res.oblige("special:descriptor-subclasses", True)
+    # traces recorded with TypedDict inference on, from dicts whose string keys are not identifiers: the stub still parses
+    from monkeytype.tracing import CallTrace
+    from monkeytype.typing import get_type
+
+    for ki, val in enumerate(({"content-type": 1, "from": "x"}, {"a b": 1}, {"": 1}, {"1x": 2}, {"class": 1}, {"ok": {"not-ok": 1}}, [{"x-y": 1}], {"ok": 1})):
+        for k in (1, 3, 10):
+            res.states += 1
+            res.evaluations += 1
+            res.validated += 1
+            res.transitions += 1
+            case = {"module_index": -6, "subset": [ki, k], "tier": ctx.tier}
+            try:
+                t = get_type(val, k)
+                text = build_module_stubs_from_traces([CallTrace(dmod.D.plain, {"self": dmod.D, "a": t}, t, None)], k)[dname].render()
+                ast.parse(text)
+            except SyntaxError as e:
+                res.violate(Violation(ID, "syntax", "typed-dict-field-not-an-identifier", case, f"value {val!r} traced with max_typed_dict_size={k}: the stub does not parse ({e.msg} line {e.lineno}): {text[:300]!r}"))
+            except Exception as e:  # noqa: BLE001
+                res.violate(Violation(ID, "exception", "typed-dict-field-not-an-identifier", case, f"value {val!r}, k={k}: raised {e!r}"))
+    res.oblige("special:non-identifier-dict-keys", True)
     # two modules interleaved
     gs = groups(ctx.tier)
     for a_i, b_i in ((0, 1), (2, 5)):
@@ -558,7 +578,7 @@ def run(ctx: Ctx) -> Result:
         return res
 
     res = run_shards(ctx, shard, list(range(nshards)))
-    for o in ("saw:StubIndexBuilder", "special:same-named-functions", "special:annotated-sources-x-strategies", "special:descriptor-subclasses", "special:interleaved-modules", "saw:wrapped-signature", "saw:posonly-separator", "saw:kwonly-separator", "saw:async"):
+    for o in ("saw:StubIndexBuilder", "special:same-named-functions", "special:annotated-sources-x-strategies", "special:descriptor-subclasses", "special:non-identifier-dict-keys", "special:interleaved-modules", "saw:wrapped-signature", "saw:posonly-separator", "saw:kwonly-separator", "saw:async"):
         res.obligations.setdefault(o, False)
     res.bounds.update({"max_params": 4 if ctx.tier == "thorough" else "3 (+4 for function/instance)", "modules": len(gs), "functions_per_module": 5, "subsets": "all 31"})
     return res
